@@ -36,13 +36,21 @@ var CfgC20 = &MachineCfg{
 func init() { Machines["C20"] = CfgC20 }
 
 // TestC20Snapshot : queries served during block execution see committed snapshots.
-func TestC20Snapshot(t *testing.T) {
+func TestC20Snapshot(t *testing.T) { snapshotPlan(t, "C20") }
+
+// TestC09Concurrent is the same plan claimed for C09: a replica that serves queries, CheckTx
+// and Simulate from other goroutines while it executes the blocks computes the same
+// per-transaction codes and application hashes as the replica that executed them alone
+// ("irrespective of hardware parallelism"); run under the race detector.
+func TestC09Concurrent(t *testing.T) { snapshotPlan(t, "C09") }
+
+func snapshotPlan(t *testing.T, prop string) {
 	cfg := CfgC20
-	st := newPureStats("C20")
+	st := newPureStats(prop)
 	defer st.flush()
 	rapid.Check(t, func(rt *rapid.T) {
 		g := &G{T: rt, Bias: cfg.Bias}
-		w, err := world.New(world.Options{Prop: "C20", Open: OpenFindings()})
+		w, err := world.New(world.Options{Prop: prop, Open: OpenFindings()})
 		if err != nil {
 			rt.Fatalf("world: %v", err)
 		}
@@ -211,9 +219,9 @@ func TestC20Snapshot(t *testing.T) {
 		cwg.Wait()
 		if f := failure.Load(); f != nil {
 			if p := os.Getenv("VERIF_REPLAY_OUT"); p != "" {
-				_ = w.WriteReplay(p, map[string]interface{}{"property": "C20", "kind": "c20-plan", "readers": readers, "per_reader": perReader, "schedule_seed": seed, "violation": f})
+				_ = w.WriteReplay(p, map[string]interface{}{"property": prop, "kind": "c20-plan", "readers": readers, "per_reader": perReader, "schedule_seed": seed, "violation": f})
 			}
-			rt.Fatalf("ORACLE C20: %s", f)
+			rt.Fatalf("ORACLE %s: %s", prop, f)
 		}
 		st.add(changing > 0 && overlap.Load() > 0, hash8([]byte(w.ShapeString()), []byte{byte(readers)}), map[string]interface{}{"blocks": len(w.Blocks), "probes": len(probes), "readers": readers, "queries": served.Load(), "queries_overlapping_a_block": overlap.Load(), "probes_whose_answer_changes": changing}, "snapshot plan")
 		st.label("c20 queries served", int(served.Load()))
